@@ -212,7 +212,7 @@ impl Monitor for C09 {
         Outcome::Held
     }
     fn workload(&self, w: &Work, emit: &mut dyn FnMut(Case)) -> J {
-        let n = w.share(2_400, 1_600);
+        let n = w.share(16_000, 16_000);
         let mut rng = w.rng("C09", 1);
         let alpha: Vec<char> = vec!['a', 'b', 'z', 'A', 'Z', '0', '9', ' ', '-', '^', ']', '[', '\\', '\n', '\u{e9}', '\u{3b1}', '\u{3a9}', '\u{416}', '\u{2028}', '\u{d7ff}', '\u{e000}', '\u{ffff}', '\u{10000}', '\u{10400}', '\u{10ffff}', '\u{0}'];
         let cfg = GenCfg::std(&alpha);
@@ -365,7 +365,10 @@ impl Monitor for C10 {
             }
             mine += 1;
             let mut c = Case::raw(e, "", "");
-            c.aux = Some(if w.quick() { format!("quick:{}", (w.seed % 1000) + i as u64 % 7) } else { "all".to_string() });
+            // the name-character / digit / word / space escapes and the one-letter category groups are
+            // tested on every scalar value even in the quick tier
+            let small = e.chars().count() == 2 || e.chars().count() == 6;
+            c.aux = Some(if w.quick() && !small { format!("quick:{}", (w.seed % 1000) + i as u64 % 7) } else { "all".to_string() });
             emit(c);
         }
         desc.set("escapes", J::obj().with("escapes_total", J::u(esc.len() as u64)).with("escapes_this_shard", J::u(mine)).with("exhaustive", J::Bool(true)).with("scalar_values_per_escape", J::s(if w.quick() { "U+0000-U+024F + block boundaries +-1 + 2,500 sampled (about 4,000)" } else { "all 1,112,064" })));
